@@ -178,7 +178,15 @@ def verify_function(eng, key, case_kinds=None, label_suffix=""):
     finally:
         eng.raise_sink.pop()
     outs += [("raise", s, exc) for exc, s in sink]
+    canary_done = False
     for tag, s, payload in outs:
+        if tag in ("next", "return") and not canary_done:
+            # canary: `False` at the end of a path must NOT be provable (guards against contradictory assumptions,
+            # inconsistent library axioms and unsound path conditions)
+            from .interp import Obligation
+            eng.obligations.append(Obligation("%s/canary:false-at-return" % eng.ob_prefix, "canary", s.pc, FALSE, s.trail,
+                                              expect="sat"))
+            canary_done = True
         if tag in ("next", "return"):
             nret += 1
             result = payload if tag == "return" else None
